@@ -1,6 +1,7 @@
 SPECIFICATION Spec
 CONSTANTS
   MaxN = 3
+  CounterAliased = FALSE
   Guarded = TRUE
 INVARIANTS AssumePre NoDoubleDrop CompletedNoLeak EmitInv
 CONSTRAINT SpinBound
